@@ -171,6 +171,11 @@ def handle (fn : String) (a : Json) : R Json := do
     | .error e => pure (obj [("esc", Json.str (escName e))])
     | .ok none => pure (obj [("minted", Json.null)])
     | .ok (some (ou, rt)) => pure (obj [("minted", ofList [ofStr ou, ofStr rt])])
+  | "effectiveAllow" =>
+    let configured ← match fieldOpt a "configured" with
+      | none => pure none
+      | some v => do pure (some (← strList v))
+    pure (ofList ((effectiveAllow configured).map ofStr))
   | "logout" => pure (ofStr (logoutLocation (← cfgOf a)))
   | "redirectTarget" => pure (ofStr (redirectTarget (← strF a "u") (← strF a "params")))
   | _ => throw s!"unknown function C37.{fn}"
